@@ -51,6 +51,10 @@ def gen_case(rng, tier):
                     nd['path'] = rng.choice(tops)
         out.append(d)
     out[0]['items'].append(['canary', SP('call', func='verif_targets.plain0', args=M([['x', S(1)]]))])
+    if rng.random() < 0.5:
+        # mutable objects built by the leading statements of a multi-statement !eval node: every evaluation builds them anew
+        out[0]['items'].append(['acc', SP('eval', code=rng.choice(["acc_v = [1, {'k': [2]}]\nacc_v", "import collections\nd = collections.OrderedDict(k=[2])\n[0, d]",
+                                                                    "def mk():\n    return [1, {'k': [2]}]\nstore = mk()\nstore"]))])
     muts = [{'sel': rng.random(), 'op': rng.choice(['append', 'setitem', 'delattr', 'clear', 'setattr', 'pop']), 'r': rng.random(), 'value': rng.choice([1, 'm', None, [1], {'q': 1}])}
             for _ in range(rng.randrange(1, 6))]
     style = rng.choice(['flow', 'block'])
@@ -174,7 +178,13 @@ def mutate_result(cfg, muts):
                     c.clear()
         except (KeyError, IndexError, TypeError, ValueError, AttributeError):
             pass
-    # also mutate nested values in place where they are mutable objects returned by targets
+    # mutable objects computed by !eval code are part of the result like any other: edit them in place too
+    try:
+        acc = cfg['acc']
+        acc.append('mutated')
+        acc[1]['k'].append('mutated')
+    except (KeyError, IndexError, TypeError, AttributeError):
+        pass
     return cfg
 
 
